@@ -60,8 +60,8 @@ func VerifNewListenerWrapper(routes RouteList, timeout time.Duration) *ListenerW
 }
 
 // VerifNewPacketConn builds a virtual UDP connection as servePacket does.
-func VerifNewPacketConn(pc net.PacketConn, addr net.Addr, closeCh chan string) net.Conn {
-	return &packetConn{PacketConn: pc, readCh: make(chan *packet, 5), done: make(chan struct{}), addr: addr, closeCh: closeCh}
+func VerifNewPacketConn(pc net.PacketConn, addr net.Addr) net.Conn {
+	return &packetConn{PacketConn: pc, readCh: make(chan *packet, 5), done: make(chan struct{}), addr: addr, closeCh: make(chan *packetConn, 10)}
 }
 
 // VerifPacketConnFeed delivers one datagram to a virtual UDP connection.
